@@ -61,6 +61,9 @@ typedef struct {
     int nviol;
     violent viol[MAXVIOL];
     uint64_t viol_total;
+    int nstat;
+    char statname[16][32];
+    int64_t statval[16];
     /* samples */
     int nsamp;
     fent samp[6];
@@ -122,6 +125,7 @@ static int run_exec(abtmc_xrec *xr, int cfg, const abtmc_dev *dev, int ndev,
     xr->first_new_cp = 0;
     xr->nops = xr->nsteps = xr->newstates = xr->tracehash = 0;
     xr->obslen = 0;
+    xr->nstat = 0;
     pid_t pid = fork();
     if (pid < 0) {
         perror("fork");
@@ -340,6 +344,20 @@ static void worker(int wi)
         S->states += xr->newstates;
         if (rerun)
             S->horizon_hits++;
+        if (st == ABTMC_ST_OK)
+            for (int i = 0; i < xr->nstat; i++) {
+                int j;
+                for (j = 0; j < S->nstat; j++)
+                    if (!strcmp(S->statname[j], xr->statname[i]))
+                        break;
+                if (j == S->nstat && S->nstat < 16) {
+                    snprintf(S->statname[j], 32, "%s", xr->statname[i]);
+                    S->statval[j] = 0;
+                    S->nstat++;
+                }
+                if (j < S->nstat)
+                    S->statval[j] += xr->statval[i];
+            }
         if (st == ABTMC_ST_PRUNED)
             S->pruned++;
         if (st == ABTMC_ST_OK) {
@@ -728,7 +746,13 @@ int abtmc_main(int argc, char **argv, const abtmc_driver *d)
             json_str(out, S->out[i].text);
             fprintf(out, ",\"count\":%llu}", (unsigned long long)S->out[i].count);
         }
-        fprintf(out, "],\"samples\":[");
+        fprintf(out, "],\"stats\":{");
+        for (int i = 0; i < S->nstat; i++) {
+            fprintf(out, "%s", i ? "," : "");
+            json_str(out, S->statname[i]);
+            fprintf(out, ":%lld", (long long)S->statval[i]);
+        }
+        fprintf(out, "},\"samples\":[");
         for (int i = 0; i < S->nsamp; i++) {
             fprintf(out, "%s{\"deviations\":", i ? "," : "");
             json_devs(out, S->samp[i].dev, S->samp[i].ndev);
